@@ -143,3 +143,67 @@ macro_rules! each_unweighted {
         $f::<graaf::EdgeList>($($args),*)?;
     }};
 }
+
+
+// ---------------------------------------------------------------------------
+// A user-side newtype that implements only the REQUIRED methods of graaf's
+// traits (by delegation) and inherits every provided method.  A library type
+// may override a provided method; a user's type cannot, so this is the only
+// place where the provided bodies themselves run.
+// ---------------------------------------------------------------------------
+
+#[derive(Clone, Debug, PartialEq, Eq)]
+pub struct Wrapped<D>(pub D);
+
+macro_rules! wrap_gen {
+    ($tr:ident, $f:ident) => {
+        impl<D: graaf::$tr> graaf::$tr for Wrapped<D> {
+            fn $f(order: usize) -> Self {
+                Wrapped(D::$f(order))
+            }
+        }
+    };
+}
+wrap_gen!(Empty, empty);
+wrap_gen!(Complete, complete);
+wrap_gen!(Circuit, circuit);
+wrap_gen!(Cycle, cycle);
+wrap_gen!(Path, path);
+wrap_gen!(Star, star);
+wrap_gen!(Wheel, wheel);
+
+impl<D: graaf::Biclique> graaf::Biclique for Wrapped<D> {
+    fn biclique(m: usize, n: usize) -> Self {
+        Wrapped(D::biclique(m, n))
+    }
+}
+impl<D: Order> Order for Wrapped<D> {
+    fn order(&self) -> usize {
+        self.0.order()
+    }
+}
+impl<D: Size> Size for Wrapped<D> {
+    fn size(&self) -> usize {
+        self.0.size()
+    }
+}
+impl<D: Vertices> Vertices for Wrapped<D> {
+    fn vertices(&self) -> impl Iterator<Item = usize> {
+        self.0.vertices()
+    }
+}
+impl<D: Arcs> Arcs for Wrapped<D> {
+    fn arcs(&self) -> impl Iterator<Item = (usize, usize)> {
+        self.0.arcs()
+    }
+}
+impl<D: graaf::Indegree> graaf::Indegree for Wrapped<D> {
+    fn indegree(&self, v: usize) -> usize {
+        self.0.indegree(v)
+    }
+}
+impl<D: graaf::Outdegree> graaf::Outdegree for Wrapped<D> {
+    fn outdegree(&self, u: usize) -> usize {
+        self.0.outdegree(u)
+    }
+}
